@@ -313,6 +313,7 @@ class Run:
         self.outside_results: list[dict] = []
         self.harness_exc: BaseException | None = None
         self.exit_error: BaseException | None = None
+        self.nested_problem: str | None = None
         self.n_obj = 0
 
     def ev(self, kind: str, path: str, **extra: Any) -> dict:
@@ -462,11 +463,17 @@ class Run:
 
                     try:
                         await start_component(Plugin, timeout=None)
-                    except ComponentStartError as e:
+                    except Exception as e:
+                        if not isinstance(e, ComponentStartError) or e.__cause__ is not inner_exc:
+                            self.nested_problem = (f"the start_component() called inside {path!r} raised {short_exc(e)} (cause {e.__cause__!r}) for a "
+                                                   f"component whose start() raised {inner_exc!r}; expected ComponentStartError caused by it")
                         self.injected = e
                         self.ev("fail", path, phase=phase)
                         raise
-                    raise HarnessError("the nested start_component did not fail")
+                    self.nested_problem = "the start_component() called inside a component returned although its component's start() raised"
+                    self.injected = inner_exc
+                    self.ev("fail", path, phase=phase)
+                    raise inner_exc
                 self.injected = INJ[st_["exc"]](f"injected in {path} {phase}")
                 self.ev("fail", path, phase=phase)
                 raise self.injected
@@ -864,6 +871,8 @@ class Judge:
         nodes = case["nodes"]
         path = r.paths[f["node"]]
         exc = r.error
+        if r.nested_problem:
+            self.disc("fault", "nested-start", r.nested_problem)
         if exc is None:
             self.disc("fault", "failure-swallowed", f"component {path!r} failed while {f['phase']} but start_component returned normally")
             return
